@@ -16,6 +16,8 @@ package harness
 //   lcsig <s:c:h,…>                    SaveSigner in that order         -> exported signers, height map after import
 //   spons <vp:g=w+g=w,…>               voter infos                      -> distribution after import
 //   dymns <bid,…> <offer,…>            refunds                          -> supply growth, module balance growth
+//   iroops <c:r|u:id:amt,…>            plan write paths (create for rollapp r / rewrite plan id), then export -> import
+//   sops <now:c:id:start:num:filled|now:e|now:t:id|now:u:id:num:filled,…>   reference-store write paths of x/streamer
 
 import (
 	"fmt"
@@ -117,6 +119,84 @@ func (h *c18m) exec(line string) string {
 				}
 			}
 			return fmt.Sprintf("order=%s last=%d byrollapp=%d", c18mJoinU(order), app.IROKeeper.GetLastPlanId(c2), ok)
+		case "iroops":
+			// the plan write paths: CreatePlan's store part (refused when the rollapp has a plan; id from the
+			// counter) and later SetPlans of a stored plan; then export -> import
+			c1, c2 := h.branch(0), h.branch(0)
+			mk := func(id uint64, ra string) irotypes.Plan {
+				return irotypes.Plan{Id: id, RollappId: ra, TotalAllocation: sdk.NewCoin("adym", math.NewInt(1)),
+					BondingCurve: irotypes.DefaultBondingCurve(), SoldAmt: math.ZeroInt(), ClaimedAmt: math.ZeroInt(),
+					IncentivePlanParams: irotypes.DefaultIncentivePlanParams(), MaxAmountToSell: math.ZeroInt(), LiquidityPart: math.LegacyOneDec()}
+			}
+			for _, op := range c18mList(t[1]) {
+				f := strings.Split(op, ":")
+				switch f[0] {
+				case "c":
+					ra := fmt.Sprintf("r%s_1-1", f[1])
+					if _, found := app.IROKeeper.GetPlanByRollapp(c1, ra); found {
+						continue
+					}
+					app.IROKeeper.SetPlan(c1, mk(app.IROKeeper.GetNextPlanIdAndIncrement(c1), ra))
+				case "u":
+					if p, found := app.IROKeeper.GetPlan(c1, f[1]); found {
+						p.SoldAmt = math.NewIntFromUint64(c18mU(f[2]))
+						app.IROKeeper.SetPlan(c1, p)
+					}
+				}
+			}
+			g := iro.ExportGenesis(c1, *app.IROKeeper)
+			g.Params = irotypes.DefaultParams()
+			iro.InitGenesis(c2, *app.IROKeeper, *g)
+			var ps []string
+			for _, p := range app.IROKeeper.GetAllPlans(c2, false) {
+				q, _ := app.IROKeeper.GetPlanByRollapp(c2, p.RollappId)
+				ps = append(ps, fmt.Sprintf("%d:%s:%s:%d", p.Id, p.RollappId[1:2], p.SoldAmt, q.Id))
+			}
+			if len(ps) == 0 {
+				ps = []string{"-"}
+			}
+			return fmt.Sprintf("plans=%s last=%d orig=%d", strings.Join(ps, ","), app.IROKeeper.GetLastPlanId(c2), app.IROKeeper.GetLastPlanId(c1))
+		case "sops":
+			// the reference-store write paths on the real streamer keeper
+			c1 := h.branch(0)
+			for _, op := range c18mList(t[1]) {
+				f := strings.Split(op, ":")
+				ctx := c1.WithBlockTime(BaseTime.Add(time.Duration(c18mU(f[0])) * time.Second))
+				switch f[1] {
+				case "c":
+					if _, err := app.StreamerKeeper.GetStreamByID(ctx, c18mU(f[2])); err == nil {
+						continue
+					}
+					st := streamertypes.Stream{Id: c18mU(f[2]), DistributeTo: streamertypes.DistrInfo{TotalWeight: math.ZeroInt()},
+						Coins: sdk.NewCoins(sdk.NewCoin("adym", math.NewInt(10))), StartTime: BaseTime.Add(time.Duration(c18mU(f[3])) * time.Second),
+						DistrEpochIdentifier: "day", NumEpochsPaidOver: c18mU(f[4]), FilledEpochs: c18mU(f[5]), EpochCoins: sdk.NewCoins()}
+					if err := app.StreamerKeeper.SetStreamWithRefKey(ctx, &st); err != nil {
+						return "createerr"
+					}
+				case "e":
+					if err := app.StreamerKeeper.BeforeEpochStart(ctx, "c18-no-such-epoch"); err != nil {
+						return "epocherr"
+					}
+				case "t":
+					_ = app.StreamerKeeper.TerminateStream(ctx, c18mU(f[2]))
+				case "u":
+					if st, err := app.StreamerKeeper.GetStreamByID(ctx, c18mU(f[2])); err == nil {
+						st.NumEpochsPaidOver, st.FilledEpochs = c18mU(f[3]), c18mU(f[4])
+						if err := app.StreamerKeeper.SetStream(ctx, st); err != nil {
+							return "seterr"
+						}
+					}
+				}
+			}
+			ids := func(ss []streamertypes.Stream) string {
+				var x []uint64
+				for _, s := range ss {
+					x = append(x, s.Id)
+				}
+				return c18mJoinU(x)
+			}
+			return fmt.Sprintf("U=%s A=%s F=%s", ids(app.StreamerKeeper.GetUpcomingStreams(c1)), ids(app.StreamerKeeper.GetActiveStreams(c1)),
+				ids(app.StreamerKeeper.GetFinishedStreams(c1)))
 		case "eibckey", "eibcdec":
 			c1, c2 := h.branch(0), h.branch(0)
 			key := ""
@@ -368,7 +448,36 @@ func TestC18Mod(t *testing.T) {
 	}
 	n := r.N(700, 6000)
 	for i := 0; i < n; i++ {
-		switch g.Intn(11) {
+		switch g.Intn(13) {
+		case 11:
+			var xs []string
+			for j := 0; j < 1+g.Intn(14); j++ {
+				if g.Chance(70) {
+					xs = append(xs, fmt.Sprintf("c:%d", g.Intn(10)))
+				} else {
+					xs = append(xs, fmt.Sprintf("u:%d:%d", 1+g.Intn(11), g.Intn(50)))
+				}
+			}
+			emit("iroops", "iroops "+strings.Join(xs, ","))
+		case 12:
+			var xs []string
+			now := 0
+			for j := 0; j < 2+g.Intn(12); j++ {
+				now += g.Intn(6)
+				switch g.Intn(10) {
+				case 0, 1, 2, 3:
+					num := 1 + g.Intn(3)
+					xs = append(xs, fmt.Sprintf("%d:c:%d:%d:%d:%d", now, 1+g.Intn(7), []int{0, 5, 5, 10, now, now + 1, now + 3}[g.Intn(7)], num, g.Intn(num+1)))
+				case 4, 5, 6:
+					xs = append(xs, fmt.Sprintf("%d:e", now))
+				case 7, 8:
+					xs = append(xs, fmt.Sprintf("%d:t:%d", now, 1+g.Intn(7)))
+				default:
+					num := 1 + g.Intn(3)
+					xs = append(xs, fmt.Sprintf("%d:u:%d:%d:%d", now, 1+g.Intn(7), num, g.Intn(num+1)))
+				}
+			}
+			emit("sops", "sops "+strings.Join(xs, ","))
 		case 0:
 			// plan ids around the decimal-digit boundaries, in a random order
 			k := 1 + g.Intn(14)
